@@ -229,7 +229,8 @@ package bls
 //@   requires curveOK() && 2 <= tbls.threshold && tbls.threshold <= len(tbls.parties)
 //@   requires [complete] tbls.publicKeysOfParties != nil && forall i int :: 0 <= i && i < len(tbls.parties) ==> tbls.parties[i] in tbls.publicKeysOfParties
 //@   requires [valid]    forall p uint16 :: { dom(tbls.publicKeysOfParties, p) } p in tbls.publicKeysOfParties ==> g2valid(tbls.publicKeysOfParties[p])
-//@   modifies nothing
+//@   // heaps of the objects the cross-check allocates (the key map, the G2 points, the captured result cell)
+//@   modifies heap:C!p_math_G2, heap:MD!string!p_math_G2, heap:MV!string!p_math_G2, heap:E!any, heap:E!p_math_G2, heap:L!alg!G2
 //@   ensures  [non-nil]  result.0 != nil && result.1 != nil
 //@   at iterate chooseKoutOfN:
 //@     assert [key] thresholdPublicKey != nil && thresholdPublicKeys != nil
